@@ -23,6 +23,7 @@ RULE = (
     "and at the end the whole history; in a third of the cases the run is additionally cut once with the continuation restored and run "
     "in another interpreter with its own hash seed. Non-trivial = a cut immediately before the turn of a stateful sampler (Halton/RSequence "
     "cursor, PSO swarm, CORS counter, surrogate seed stream, BestBatch generator); distinct by (configuration, labelling)."
+    ' A quarter of the cases spell the saving folder non-canonically (relative to the working directory, through "..", with "./", with a trailing slash).'
 )
 ASSUMPTIONS = [
     "as C01 (no HP-based filters; third-party determinism trusted)",
